@@ -10,6 +10,7 @@ import (
 	"io"
 	"net/http"
 	"net/http/httptest"
+	"os"
 	"strings"
 
 	"github.com/formancehq/ledger/internal/api/bulking"
@@ -195,6 +196,9 @@ func runBulk(in bkIn) (out bkOut) {
 		h.ServeHTTP(rec, req)
 		out.Status = rec.Code
 		raw, _ := io.ReadAll(rec.Body)
+		if os.Getenv("VERIF_WRAP_RAW") != "" {
+			fmt.Fprintf(os.Stderr, "REQUEST POST %s\nContent-Type: %s\n\n%s\nRESPONSE %d\n%s\n", url, ct, body, rec.Code, raw)
+		}
 		var resp struct {
 			Data []struct {
 				ErrorCode        string `json:"errorCode"`
